@@ -201,6 +201,8 @@ func rulesC04(e *Engine, r *Report) {
 		})
 		r.Check(ok, "R04.6", "client.(*binnable).GetPrev returns the wrapped sendable's predecessor", e.Pos(fn.Pos()), "binnable.GetPrev no longer forwards the predecessor", 1)
 	}
+	// ---------------------------------------------------------------- R04.7
+	e.shareRule(r, "C10", "R10.3", "R04.7", "the predecessor the sender announces for a re-queued file is the one it announced before: a resumed / re-queued file (sts.Recovered) answers with its OWN stored predecessor - the type test comes first and wins over the live queue neighbour (which may be a later file of the group that transitively waits for this one: a cycle the receiver can only break by giving up the order)")
 }
 
 // allocsOf returns the composite-literal allocations of type *T in fn.
